@@ -92,21 +92,23 @@ package authboss
 //@ spec lists_distinct(c) := len(c.sessionStateEvents) == 0 || len(c.cookieStateEvents) == 0 || c.sessionStateEvents != c.cookieStateEvents
 //@
 //@ func (*ClientStateResponseWriter).putClientState
-//@   property C11
+//@   property C11 C09 C10
 //@   requires lists_distinct(c)
 //@   -- each store gets exactly its own read state and its own accumulated list, session first,
 //@   -- and the writer is marked as flushed before anything is delivered
-//@   ensures right_lists: each CS.WriteState(?rw, ?w, ?state, ?evs) => w == c &&
+//@   -- (C09, C10: what expiry and logout queued - the DelAll with the whitelist - reaches the
+//@   -- store exactly as queued)
+//@   ensures[C11,C09,C10] right_lists: each CS.WriteState(?rw, ?w, ?state, ?evs) => w == c &&
 //@       ((rw == c.sessionStateRW && state == c.sessionState && evs == c.sessionStateEvents) ||
 //@        (rw == c.cookieStateRW && state == c.cookieState && evs == c.cookieStateEvents))
-//@   ensures each_store_once: each CS.WriteState(?rw, _, _, ?evs) => !(before CS.WriteState(_, _, _, ?evs2) :: evs2 == evs)
-//@   ensures session_before_cookie: each CS.WriteState(_, _, _, ?evs) => evs == c.sessionStateEvents ==>
+//@   ensures[C11] each_store_once: each CS.WriteState(?rw, _, _, ?evs) => !(before CS.WriteState(_, _, _, ?evs2) :: evs2 == evs)
+//@   ensures[C11] session_before_cookie: each CS.WriteState(_, _, _, ?evs) => evs == c.sessionStateEvents ==>
 //@       !(before CS.WriteState(_, _, _, ?evs2) :: evs2 == c.cookieStateEvents && evs2 != c.sessionStateEvents)
-//@   ensures marked_before_delivery: each CS.WriteState(_, _, _, _) => before MemWrite(?p, ?b, ?v) :: suffixof(".hasWritten", p) && b == c && v == true
-//@   ensures delivers_pending: (!panics && result == nil) ==>
+//@   ensures[C11] marked_before_delivery: each CS.WriteState(_, _, _, _) => before MemWrite(?p, ?b, ?v) :: suffixof(".hasWritten", p) && b == c && v == true
+//@   ensures[C11,C09,C10] delivers_pending: (!panics && result == nil) ==>
 //@       (((len(c.sessionStateEvents) > 0 && c.sessionStateRW != nil) ==> emits CS.WriteState(?rw, _, _, _) :: rw == c.sessionStateRW) &&
 //@        ((len(c.cookieStateEvents) > 0 && c.cookieStateRW != nil) ==> emits CS.WriteState(?rw2, _, _, ?e2) :: rw2 == c.cookieStateRW && e2 == c.cookieStateEvents))
-//@   ensures never_twice: panics <=> c.hasWritten
+//@   ensures[C11] never_twice: panics <=> c.hasWritten
 //@
 //@ func (*ClientStateResponseWriter).WriteHeader
 //@   property C11
